@@ -38,8 +38,10 @@ LEVEL_NOTE = 'Trusted: gvmc/ref/geom.py; pandas. Tables are fed to the real Coll
 TECHNIQUE = 'bounded-exhaustive enumeration of jump tables (explicit-state exploration of the pair scan) against a reference predicate'
 ASSUMPTIONS = ['cut-offs are midpoints between distinct site spacings, so no distance ties occur', 'jump tables contain no two identical rows']
 
-SITE_FRAC = [(0.03, 0.5, 0.5), (0.17, 0.5, 0.5), (0.95, 0.52, 0.5)]
-SITE_PAIRS = [(0, 1), (1, 0), (0, 2), (2, 1)]
+# four sites, so that two jumps can use disjoint site pairs (with three sites any two jumps share a site and the
+# distance clause would be trivially true): 0-1 close, 2 close to 0 only through a cell face, 3 far from all
+SITE_FRAC = [(0.03, 0.5, 0.5), (0.17, 0.5, 0.5), (0.95, 0.52, 0.5), (0.5, 0.1, 0.93)]
+SITE_PAIRS = [(0, 1), (1, 0), (2, 3), (3, 2)]
 COLS = ['atom index', 'start site', 'destination site', 'start time', 'stop time']
 
 
@@ -49,10 +51,58 @@ def lattice_list(tier, seed):
     return [l for l in L if l[0] in names]
 
 
-def cutoffs(M):
+_SKEW = {}
+
+
+def skew_sites(M):
+    """Site set for a skewed cell in which, for one site pair, the component-wise rounded image is NOT the
+    minimum image (true distance smaller by > 0.3 A): separates a real minimum-image distance from the naive one."""
+    key = np.asarray(M).tobytes()
+    if key not in _SKEW:
+        s0, s1 = np.array(SITE_FRAC[0]), np.array(SITE_FRAC[1])
+        best = None
+        grid = [0.05 + 0.1 * i for i in range(10)]
+        for x in itertools.product(grid, repeat=3):
+            d = np.array(x) - s0
+            naive = np.linalg.norm((d - np.round(d)) @ np.asarray(M))
+            true = float(geom.min_image_dist(s0, np.array(x), M))
+            if naive - true > 0.3 and true > 1.0:
+                if best is None or naive - true > best[0]:
+                    best = (naive - true, x)
+        if best:
+            # origin and destination of each jump 0.01 (fractional) apart, so all four cross distances between
+            # the jumps (0->1) and (2->3) are ~ d(s0, s2): true minimum image and naive image separate cleanly
+            s2 = np.array(best[1])
+            dl = np.array([0.01, 0.0, 0.0])
+            _SKEW[key] = [tuple(s0), tuple(s0 + dl), tuple(s2), tuple(s2 + dl)]
+        else:
+            _SKEW[key] = None
+    return _SKEW[key]
+
+
+def site_set(shard_or_name, M):
+    name = shard_or_name if isinstance(shard_or_name, str) else shard_or_name.get('sites', 'base')
+    if name == 'skew':
+        ss = skew_sites(M)
+        if ss is not None:
+            return ss
+    return SITE_FRAC
+
+
+def cutoffs(M, SITE_FRAC=SITE_FRAC):
     D = geom.dist_matrix(SITE_FRAC, SITE_FRAC, M)
-    ds = sorted({round(float(D[i, j]), 9) for i in range(3) for j in range(i + 1, 3)})
+    n = len(SITE_FRAC)
+    ds = sorted({round(float(D[i, j]), 9) for i in range(n) for j in range(i + 1, n)})
     cuts = [ds[0] / 2] + [(a + b) / 2 for a, b in zip(ds, ds[1:])] + [ds[-1] + 0.5]
+    if n == 4:
+        # a cut-off between the true minimum-image cross distances and the component-wise rounded ones
+        # (only differs from the above in skewed cells)
+        Mx = np.asarray(M)
+        df = np.asarray(SITE_FRAC)[:2, None, :] - np.asarray(SITE_FRAC)[None, 2:, :]
+        naive = np.linalg.norm((df - np.round(df)) @ Mx, axis=-1)
+        true = D[:2, 2:]
+        if naive.min() - true.max() > 0.2:
+            cuts.append(float((naive.min() + true.max()) / 2))
     return cuts, D
 
 
@@ -68,7 +118,7 @@ def J3a(tier):
 
 
 def J3b(tier):
-    return [(2, o, d, s, s + k) for (o, d) in [(2, 1), (0, 1)] for s in (0, 1) for k in ((6, 9) if tier == 'quick' else (4, 6, 9))]
+    return [(2, o, d, s, s + k) for (o, d) in [(3, 2), (0, 1)] for s in (0, 1) for k in ((6, 9) if tier == 'quick' else (4, 6, 9))]
 
 
 WINDOWS = {'quick': [0, 1, 5], 'thorough': [0, 1, 2, 3, 5, 8]}
@@ -85,6 +135,17 @@ def shards(tier, seed):
         ja = J3a(tier)
         for lo in range(0, len(ja), 1):
             out.append({'kind': 'triples', 'lat': lname, 'M': M.tolist(), 'tier': tier, 'lo': lo, 'hi': min(lo + 1, len(ja))})
+    # skewed cells with a site pair whose naive (component-wise rounded) image is not the minimum image
+    skew = [geom.from_parameters(5, 6, 7, 55, 110, 75), geom.from_parameters(6, 6, 6, 60, 60, 60), geom.from_parameters(5, 5, 7, 90, 90, 120)]
+    for k, M in enumerate(skew):
+        if skew_sites(M) is None:
+            continue
+        n = len(J2(tier))
+        step = 6 if tier == 'quick' else 6
+        for lo in range(0, n, step):
+            if tier == 'quick' and (lo // step) % 2:
+                continue
+            out.append({'kind': 'pairs', 'lat': f'skew{k}', 'M': M.tolist(), 'tier': tier, 'lo': lo, 'hi': min(lo + step, n), 'sites': 'skew'})
     out.append({'kind': 'window', 'tier': tier})
     return out
 
@@ -105,7 +166,7 @@ def row_of(ev):
     return tuple(int(ev[c]) for c in COLS)
 
 
-def run_collective(jumps, M, w, cut, order=0):
+def run_collective(jumps, M, w, cut, order=0, SITE_FRAC=SITE_FRAC):
     from pymatgen.core import Lattice
 
     from gemdat.collective import Collective
@@ -114,15 +175,15 @@ def run_collective(jumps, M, w, cut, order=0):
     if order == 1:
         rows = rows[::-1]
     df = pd.DataFrame(data=np.array(rows, dtype=int).reshape(-1, 5), columns=COLS)
-    sites = concretise.make_sites(np.array(SITE_FRAC), ['A', 'A', 'B'], M)
+    sites = concretise.make_sites(np.array(SITE_FRAC), ['A', 'A', 'B', 'B'][: len(SITE_FRAC)], M)
     return Collective(jumps=types.SimpleNamespace(data=df), sites=sites, lattice=Lattice(np.asarray(M)), max_steps=w, max_dist=cut)
 
 
-def check_table(jumps, M, w, cut, D, order=0):
+def check_table(jumps, M, w, cut, D, order=0, SITE_FRAC=SITE_FRAC):
     viols = []
     exp = ref_pairs(jumps, w, cut, D)
     try:
-        c = run_collective(jumps, M, w, cut, order)
+        c = run_collective(jumps, M, w, cut, order, SITE_FRAC)
     except Exception as e:  # noqa: BLE001
         return [(f'collective-raise-{type(e).__name__}', f'{e}')], ('raise',)
     got_list = [frozenset((row_of(a), row_of(b))) for a, b in c.collective]
@@ -159,7 +220,7 @@ def check_window(trace, S, dt, cut):
     L, A = len(trace), len(trace[0])
     M = np.eye(3) * 6.0
     traj = concretise.vib_traj(A, L, M, dt)
-    sites = concretise.make_sites(np.array(SITE_FRAC), ['A', 'A', 'B'], M)
+    sites = concretise.make_sites(np.array(SITE_FRAC[:3]), ['A', 'A', 'B'], M)
     tr = impl.make_transitions(trace, S, trajectory=traj, diff_trajectory=traj, sites=sites)
     try:
         j = Jumps(tr)
@@ -173,7 +234,7 @@ def check_window(trace, S, dt, cut):
         return [(f'jumps-collective-raise-{type(e).__name__}', str(e))], ('raise',)
     if c.max_steps != w:
         viols.append(('window-not-ceil-inverse-attempt-frequency', f'max_steps={c.max_steps} expected={w} nu={nu} dt={dt}'))
-    D = geom.dist_matrix(SITE_FRAC, SITE_FRAC, M)
+    D = geom.dist_matrix(SITE_FRAC[:3], SITE_FRAC[:3], M)
     rows = set(impl.jump_rows(j.data))
     exp = ref_pairs(rows, w, cut, D)
     got = {frozenset((row_of(a), row_of(b))) for a, b in c.collective}
@@ -212,7 +273,8 @@ def run_shard(shard) -> Result:
         res.transitions += res.evals
         return res
     M = np.array(shard['M'])
-    cuts, D = cutoffs(M)
+    SF = site_set(shard, M)
+    cuts, D = cutoffs(M, SF)
     tables = []
     if shard['kind'] == 'pairs':
         j2 = J2(tier)
@@ -231,12 +293,12 @@ def run_shard(shard) -> Result:
             continue
         for w in WINDOWS[tier]:
             for cut in cuts:
-                viols, key = check_table(set(table), M, w, cut, D, order=(t_index + w) % 2)
+                viols, key = check_table(set(table), M, w, cut, D, order=(t_index + w) % 2, SITE_FRAC=SF)
                 res.evals += 1
                 res.traces += 1
                 res.outcome(hash(key))
                 for kind, detail in viols:
-                    res.violation(kind, {'table': sorted(table), 'M': M.tolist(), 'w': w, 'cut': cut, 'order': (t_index + w) % 2}, detail)
+                    res.violation(kind, {'table': sorted(table), 'M': M.tolist(), 'w': w, 'cut': cut, 'order': (t_index + w) % 2, 'sites': shard.get('sites', 'base')}, detail)
     res.states += len(tables)
     res.transitions += res.evals
     res.sample({'table': sorted(tables[len(tables) // 2]), 'windows': WINDOWS[tier], 'cutoffs': cuts, 'lattice': shard['lat']})
@@ -249,6 +311,7 @@ def replay(case):
         viols, _ = check_window(case['window_trace'], 3, case['dt'], 1.0)
     else:
         M = np.array(case['M'])
-        _, D = cutoffs(M)
-        viols, _ = check_table({tuple(r) for r in case['table']}, M, case['w'], case['cut'], D, case.get('order', 0))
+        SF = site_set(case.get('sites', 'base'), M)
+        _, D = cutoffs(M, SF)
+        viols, _ = check_table({tuple(r) for r in case['table']}, M, case['w'], case['cut'], D, case.get('order', 0), SITE_FRAC=SF)
     return [{'kind': k, 'detail': d} for k, d in viols]
